@@ -1,0 +1,51 @@
+//! Verification hooks for the parallel walker (only built with
+//! `--cfg ripgrep_verif`). They observe and never change behaviour.
+#![allow(missing_docs)]
+
+use std::{
+    path::PathBuf,
+    sync::{Arc, RwLock},
+};
+
+/// An observation made right after a synchronisation operation of a worker.
+#[derive(Clone, Debug)]
+pub enum Event {
+    Start,
+    Push { quit: bool, path: Option<PathBuf>, own_len: usize },
+    Recv { kind: &'static str, path: Option<PathBuf>, lens: Vec<usize> },
+    Chk { quit: bool },
+    SetQuit,
+    Deact { remaining: usize },
+    Act,
+    Sleep,
+    Exit,
+}
+
+/// Installed by a test harness; `yield_point` is called before and `event`
+/// after each synchronisation operation.
+pub trait Hook: Send + Sync {
+    fn yield_point(&self, worker: usize, what: &'static str);
+    fn event(&self, worker: usize, ev: Event);
+}
+
+static HOOK: RwLock<Option<Arc<dyn Hook>>> = RwLock::new(None);
+
+pub fn set_hook(hook: Option<Arc<dyn Hook>>) {
+    *HOOK.write().unwrap() = hook;
+}
+
+fn get() -> Option<Arc<dyn Hook>> {
+    HOOK.read().unwrap().clone()
+}
+
+pub(crate) fn yield_point(worker: usize, what: &'static str) {
+    if let Some(h) = get() {
+        h.yield_point(worker, what);
+    }
+}
+
+pub(crate) fn emit(worker: usize, ev: Event) {
+    if let Some(h) = get() {
+        h.event(worker, ev);
+    }
+}
